@@ -165,7 +165,8 @@ SPECS["C01"] = dict(
                "point is picked from a hash of the case: algorithms::diff_deadline, algorithms::diff, the algorithm's own "
                "module functions with and without deadline parameter.  The small world also runs against a debug build of "
                "the crate, and every binary sequence up to length 4 is diffed against itself (same object passed twice) "
-               "over all pairs of sub-ranges",
+               "over all pairs of sub-ranges; every offset-lookup case is repeated with offsets 2^32-3, 2^40, 2^63-2 and with the "
+               "longer range ending exactly at usize::MAX",
 )
 
 
@@ -584,6 +585,14 @@ def run_C09(ctx):
     cases.extend(threshold_text_cases(ctx))
     cases.extend(threshold_deadline_cases(ctx))
     C.evaluate(ctx, "textdiff-ops", textdiff_lines(ctx, cases), rel, nontrivial=nontrivial_text, cap=60)
+    # a captured script with more than 2^18 ops (90000 blocks "unique item, changed non-unique item") and a slidable
+    # insertion at its head; judged by the integer fast path of the normal-form clause (normal_big)
+    nb = 90000
+    a, b = [0, 0], [1, 0, 0, 0, 1, 0]
+    for i in range(nb):
+        a += [10 + i, 2]
+        b += [10 + i, 3]
+    C.evaluate(ctx, "capture-quarter-million-ops", [gen.capture_line("P", a, b)], rel, x=False, cap=300)
 
 
 SPECS["C09"] = dict(
@@ -594,11 +603,12 @@ SPECS["C09"] = dict(
         note='Trusted: Coq 8.16.1 kernel; extraction with ExtrOcamlBasic only; OCaml driver and Rust harness glue; the tie of the hand-written model to /repo is the correspondence check (differential testing on the generated inputs, rebuilt from the working tree every run), not a proof about the Rust source. usize wrap-around is not modelled.',
         technique='Coq proof of the full normal form (alternation, non-emptiness, insert-latest) + verified checker on implementation output + correspondence',
     ),
-    relevant=lambda comp, kv: {"no_panic", "normal"} if kv.get("stack", "compact_replace") == "compact_replace" else {"no_panic"},
+    relevant=lambda comp, kv: {"no_panic", "normal", "normal_big"} if kv.get("stack", "compact_replace") == "compact_replace" else {"no_panic"},
     run=run_C09,
     generators="capture component as in C02 (small worlds, random, every deadline expiry point), every valid script "
                "of the C10 adapter world pushed through Compact+Replace, and TextDiff::ops on small texts and on both "
-               "sides of the 100-token switch (incl. insertions in front of a common tail that starts like them)",
+               "sides of the 100-token switch (incl. insertions in front of a common tail that starts like them); one Patience "
+               "capture of 90000 changed blocks (about 270000 raw ops) judged by the integer fast path normal_big",
 )
 
 
@@ -1099,6 +1109,13 @@ def threshold_text_cases(ctx):
             cases_u = (("lines", alg, "str", None, "-", ot, nt),)
             cases.extend(cases_u)
             ctx.count("textdiff:mostly-unique-above-threshold")
+    # identical texts above the threshold, every tokenizer, every newline_terminated override
+    for n in (101, 150):
+        for tok, sep in (("lines", b"\n"), ("words", b" "), ("chars", b"")):
+            t = gen.tokens_text(ctx.rng, n, sep) if tok != "chars" else bytes(ctx.rng.choice(b"abc") for _ in range(n))
+            for nlo in ("-", "0", "1"):
+                cases.append((tok, ctx.rng.choice(ALGS), ctx.rng.choice(["str", "bytes"]), None, nlo, t, t))
+                ctx.count("textdiff:identical-above-threshold")
     # an insertion in front of a common tail that starts with the inserted block's first token (a block
     # appended after a closing line), with an earlier change: the insertion must end up at its latest position
     for rep in range(tiered(ctx, 30, 300)):
@@ -1357,7 +1374,8 @@ def run_C16(ctx):
             continue
         alg = ctx.rng.choice(ALGS)
         idl = ctx.rng.choice(["-", "-", "0"])
-        lines.append("inline alg=%s mode=%s idl=%s old=%s new=%s uw=%s" % (alg, mode, idl, gen.hx(o), gen.hx(n), ";".join(ent) or "-"))
+        nlo = ctx.rng.choice(["", "", " nlo=0", " nlo=1"])      # the builder's newline_terminated override must not matter
+        lines.append("inline alg=%s mode=%s idl=%s old=%s new=%s uw=%s%s" % (alg, mode, idl, gen.hx(o), gen.hx(n), ";".join(ent) or "-", nlo))
         ctx.count("inline:cases")
     C.evaluate(ctx, "inline", lines, rel, nontrivial=lambda comp, kv, impl: "1." in impl)
 
